@@ -351,6 +351,50 @@ func (c *Ctx) solveOne(i int, o *Obligation, opts solveOpts) {
 			}
 			cancel()
 		}
+		if !(o.Result == "unsat" || o.Result == "sat") {
+			// stage 3: an undecided query is retried with perturbed z3 configurations (other random seeds, MBQI off,
+			// the other arithmetic solver): quantifier instantiation is order-sensitive, and a proof that exists must not
+			// be lost to one unlucky order. Any `unsat` decides.
+			variants := []solverCfg{
+				{"z3-new/seed7", func(f string, t int) []string {
+					return []string{"z3-new", fmt.Sprintf("-T:%d", t), "smt.random_seed=7", "sat.random_seed=7", "-smt2", f}
+				}},
+				{"z3-new/nombqi", func(f string, t int) []string {
+					return []string{"z3-new", fmt.Sprintf("-T:%d", t), "smt.mbqi=false", "-smt2", f}
+				}},
+				{"z3-new/arith2", func(f string, t int) []string {
+					return []string{"z3-new", fmt.Sprintf("-T:%d", t), "smt.arith.solver=2", "smt.random_seed=42", "-smt2", f}
+				}},
+				{"z3-new/eager", func(f string, t int) []string {
+					return []string{"z3-new", fmt.Sprintf("-T:%d", t), "smt.qi.eager_threshold=100", "smt.random_seed=3", "-smt2", f}
+				}},
+			}
+			type ans struct {
+				name, res, out string
+				ms             int64
+			}
+			ch := make(chan ans, len(variants))
+			ctx, cancel := context.WithCancel(context.Background())
+			for _, sc := range variants {
+				go func(sc solverCfg) {
+					r, o2, m := runSolverCtx(ctx, sc, file, opts.secs)
+					ch <- ans{sc.name, r, o2, m}
+				}(sc)
+			}
+			for range variants {
+				a := <-ch
+				if ctx.Err() != nil && a.res != "unsat" && a.res != "sat" {
+					continue
+				}
+				if a.res == "unsat" || a.res == "sat" {
+					record(a.name, a.res, a.out, a.ms)
+					cancel()
+				} else {
+					results = append(results, a.name+"="+a.res)
+				}
+			}
+			cancel()
+		}
 	}
 	o.Output += strings.Join(results, " ")
 	if o.Result == "sat" && !o.ExpectSat {
